@@ -167,6 +167,7 @@ type contracts struct {
 	funcFields   map[string]string // "pkg.Type.field" -> function key
 	nonnil       map[string]bool   // "field pkg.T.f" | "elems pkg.T" | "payload pkg.T"
 	fieldRange   map[string][2]string
+	mapInv       map[string]string // map type string -> predicate name over the stored value
 }
 
 func (c *contracts) get(key string) *funcContract { return c.funcs[key] }
@@ -174,7 +175,7 @@ func (c *contracts) get(key string) *funcContract { return c.funcs[key] }
 var clauseKeywords = map[string]bool{"func": true, "pred": true, "spec": true, "requires": true, "ensures": true, "assigns": true,
 	"loop": true, "panics": true, "inline": true, "trusted": true, "noreturn": true, "props": true, "pure": true,
 	"field": true, "evaltype": true, "frameroot": true, "freshresult": true, "globalroot": true,
-	"implements": true, "recovers": true, "decreases": true, "funcfield": true, "precise-append": true, "nonnil": true, "preserves": true, "atcall": true, "atstore": true, "opaque-arith": true, "split-returns": true, "atif": true, "owned": true, "abstract-float": true, "fieldrange": true}
+	"implements": true, "recovers": true, "decreases": true, "funcfield": true, "precise-append": true, "nonnil": true, "preserves": true, "atcall": true, "atstore": true, "opaque-arith": true, "split-returns": true, "atif": true, "owned": true, "mapinv": true, "abstract-float": true, "fieldrange": true}
 
 func loadContractFile(c *contracts, path string, pkgpath string) error {
 	data, err := os.ReadFile(path)
@@ -469,6 +470,16 @@ func loadContractFile(c *contracts, path string, pkgpath string) error {
 			cur = nil
 		case "frameroot": // frameroot pkg.func : entry point of the ownership analysis (parameters are shared memory)
 			c.frameRoots = append(c.frameRoots, strings.Fields(rest)...)
+			cur = nil
+		case "mapinv": // mapinv <map type as printed by go/types> <pred> : every value stored in a map of that type satisfies pred(value) (checked at map updates, assumed at lookups and range)
+			k := strings.LastIndex(rest, " ")
+			if k < 0 {
+				return fmt.Errorf("%s:%d: bad mapinv directive (mapinv <map type> <pred>)", path, r.line)
+			}
+			if c.mapInv == nil {
+				c.mapInv = map[string]string{}
+			}
+			c.mapInv[strings.TrimSpace(rest[:k])] = strings.TrimSpace(rest[k+1:])
 			cur = nil
 		case "fieldrange": // fieldrange pkg.T.f lo hi : data-structure invariant lo <= x.f <= hi (assumed at loads, checked at stores)
 			f := strings.Fields(rest)
